@@ -66,6 +66,44 @@ def field_of(metric: str):
     return (low, None)
 
 
+# Special float values a component may report in a field.  The model treats a value as an opaque token (Z);
+# the harness maps every delivered value to its token: an integer-valued float to that integer, the special
+# values to the reserved negative codes below, "sample without a value" (None) to NO_VALUE, anything else to -99.
+SPECIALS = {"nan": float("nan"), "inf": float("inf"), "-inf": float("-inf"), "-0.0": -0.0,
+            "denorm": 5e-324, "-denorm": -5e-324, "huge": 1.7976931348623157e308, "-huge": -1.7976931348623157e308}
+TOKENS = {"nan": -1, "inf": -2, "-inf": -3, "-0.0": -4, "denorm": -5, "-denorm": -6, "huge": -7, "-huge": -8}
+NO_VALUE = -9
+
+
+def tok(v) -> int:
+    """Token of a delivered value (NaN recognised by isnan, never by ==; None is not NaN)."""
+    import math
+    if v is None:
+        return NO_VALUE
+    if not isinstance(v, float):
+        return -99
+    if math.isnan(v):
+        return TOKENS["nan"]
+    if v == 0.0 and math.copysign(1.0, v) < 0:
+        return TOKENS["-0.0"]
+    for kind, x in SPECIALS.items():
+        if kind != "nan" and kind != "-0.0" and v == x:
+            return TOKENS[kind]
+    if math.isfinite(v) and v == int(v) and abs(v) < 2 ** 53:
+        return int(v)
+    return -99
+
+
+def special_of(case, cid: int, k: int):
+    """{metric index: kind} of the special values in the k-th message of a component."""
+    return {metric_index(m): kind for c, kk, m, kind in case.get("special", []) if c == cid and kk == k}
+
+
+def field_token(case, cid: int, k: int, fld: int) -> int:
+    sp = special_of(case, cid, k)
+    return TOKENS[sp[fld]] if fld in sp else msg_value(cid, k, fld)
+
+
 def msg_value(cid: int, k: int, fld: int) -> int:
     """Distinct integer for every (component, message number, field)."""
     return (cid * 1000 + k) * 100 + fld
@@ -82,14 +120,14 @@ def msg_ts_us(case, cid: int, k: int) -> int:
     return (cid % 7) * 1000 + t * 1_000_000
 
 
-def build_msg(I, cat: str, cid: int, k: int, ts_us: int):
+def build_msg(I, cat: str, cid: int, k: int, ts_us: int, special=None):
     """A real *Data object whose every field that some metric reads carries msg_value(cid, k, field)."""
     names = metric_names()
     ts = T0 + timedelta(microseconds=ts_us)
     vals = {}
     for i, m in enumerate(names):
         attr, idx = field_of(m)
-        v = float(msg_value(cid, k, i))
+        v = float(msg_value(cid, k, i)) if not special or i not in special else SPECIALS[special[i]]
         if idx is None:
             vals[attr] = v
         else:
@@ -229,7 +267,7 @@ async def _run(case):
         async def send(self, message):
             ts = int((message.timestamp - T0) / timedelta(microseconds=1))
             v = message.value.base_value if message.value is not None else None
-            log.append(["enq", self._key, ts, None if v is None else int(v) if v == int(v) else repr(v)])
+            log.append(["enq", self._key, ts, tok(v)])
             await self._inner.send(message)
 
     # ---- registry: real get_or_create, every call by the source recorded, every sender tapped
@@ -335,7 +373,7 @@ async def _run(case):
                 cid = a["cid"]
                 k = sent[cid]
                 sent[cid] += 1
-                m = build_msg(I, cats[cid], cid, k, msg_ts_us(case, cid, k))
+                m = build_msg(I, cats[cid], cid, k, msg_ts_us(case, cid, k), special_of(case, cid, k))
                 msg_index[id(m)] = k
                 keep.append(m)   # ids stay unique while the objects are alive
                 log.append(["api", cid, k])
@@ -350,7 +388,7 @@ async def _run(case):
             if cats[cid] in CATS:
                 k = sent[cid]
                 sent[cid] += 1
-                m = build_msg(I, cats[cid], cid, k, msg_ts_us(case, cid, k))
+                m = build_msg(I, cats[cid], cid, k, msg_ts_us(case, cid, k), special_of(case, cid, k))
                 msg_index[id(m)] = k
                 keep.append(m)
                 probes[str(cid)] = k
@@ -380,7 +418,7 @@ async def _run(case):
             s = r.consume()
             ts = int((s.timestamp - T0) / timedelta(microseconds=1))
             v = s.value.base_value if s.value is not None else None
-            got.append([ts, None if v is None else int(v) if v == int(v) else repr(v)])
+            got.append([ts, tok(v)])
         streams[key] = got
     return {"log": log, "streams": streams, "keys": key_of, "errors": errors, "probes": probes}
 
@@ -450,6 +488,10 @@ def c_name(n):
 
 def c_msg(case, cid, k):
     # `mk ts base` (defined in the case-file header) = message whose field i holds base + i
+    sp = special_of(case, cid, k)
+    if sp:
+        ov = "; ".join(f"({i}%nat, {cZ(TOKENS[kind])})" for i, kind in sorted(sp.items()))
+        return f"(mks {cZ(msg_ts_us(case, cid, k))} {cZ(msg_value(cid, k, 0))} [{ov}])"
     return f"(mk {cZ(msg_ts_us(case, cid, k))} {cZ(msg_value(cid, k, 0))})"
 
 
@@ -532,16 +574,18 @@ def to_events(case, obs):
             i += 1
         elif e[0] == "enq":
             grp = []
-            ident = None
+            ident, seen_keys = None, set()
             while i < len(log) and log[i][0] == "enq":
                 x = log[i]
                 if x[1] not in tab or not isinstance(x[3], int):
                     return None
                 n = tab[x[1]]
-                idn = (n[0], x[3] // 100)
-                if ident is not None and idn != ident:
+                idn = (n[0], x[2])
+                # one fan-out = one component, one timestamp, at most one send per channel
+                if ident is not None and (idn != ident or x[1] in seen_keys):
                     break
                 ident = idn
+                seen_keys.add(x[1])
                 grp.append(c_out(n[0], n, x[2], x[3]))
                 i += 1
             ev.append(("Deliver", f"OSent [{'; '.join(grp)}]"))
@@ -554,6 +598,13 @@ CATC = {"METER": "Meter", "INVERTER": "Inverter", "BATTERY": "Battery", "EV_CHAR
 
 MK = """(* the harness' messages: the field read by metric i holds base + i *)
 Definition mk (ts base : Z) : msg := mkMsg ts (map (fun i => base + Z.of_nat i) (seq 0 28)).
+(* ... except the listed fields, which hold the token of a special float value (NaN -1, +inf -2, -inf -3,
+   -0.0 -4, +-denormal -5/-6, +-huge -7/-8); a sample delivered WITHOUT a value is observed as token -9 *)
+Definition mks (ts base : Z) (ov : list (nat * Z)) : msg :=
+  mkMsg ts (map (fun i => match find (fun p => Nat.eqb (fst p) i) ov with
+                          | Some p => snd p
+                          | None => base + Z.of_nat i
+                          end) (seq 0 28)).
 """
 
 HEADER = """From Verif Require Import model.DataSourcing.
@@ -604,6 +655,11 @@ def show_term(case, obs):
 
 
 # ----------------------------------------------------------------------------- property oracle
+def show_tok(t) -> str:
+    inv = {v: k for k, v in TOKENS.items()}
+    return "a sample without value (None)" if t == NO_VALUE else inv[t] if t in inv else "an unexpected value" if t == -99 else str(t)
+
+
 def oracle(case, obs):
     """C20 judged on what was sent into the fake API vs what came out of the registry channels."""
     out = []
@@ -661,19 +717,26 @@ def oracle(case, obs):
             continue
         eff_adds[cid] += 1
         mi = metric_index(a["metric"])
+        # what a sample of message k on this stream has to be: (the message's timestamp, that metric's value)
+        nmsg = 1 + max([k for (c, k) in api_pos if c == cid], default=-1)
+        want = {k: (msg_ts_us(case, cid, k), field_token(case, cid, k, mi)) for k in range(nmsg)}
         ks = []
         bad = False
         for ts, v in got:
-            if not isinstance(v, int) or v % 100 != mi or (v // 100) // 1000 != cid:
-                out.append({"what": f"value: stream {d} carries {v}, not the value of {a['metric']} of a message of component {cid}", "finding": None})
+            cand = [k for k in range(nmsg) if want[k] == (ts, v)]
+            if not cand:
+                same_ts = [k for k in range(nmsg) if want[k][0] == ts]
+                if same_ts:
+                    k = same_ts[0]
+                    out.append({"what": f"value: stream {d} delivered {show_tok(v)} for message {k} of component {cid} whose "
+                                        f"{a['metric']} field holds {show_tok(want[k][1])}", "finding": None})
+                else:
+                    out.append({"what": f"timestamp: stream {d} carries a sample ({ts}, {show_tok(v)}) that is no message's "
+                                        f"(timestamp, {a['metric']}) of component {cid}", "finding": None})
                 bad = True
                 break
-            k = (v // 100) % 1000
-            if (cid, k) not in api_pos or ts != msg_ts_us(case, cid, k):
-                out.append({"what": f"timestamp: stream {d} sample of message {k} has timestamp {ts}", "finding": None})
-                bad = True
-                break
-            ks.append(k)
+            later = [k for k in cand if not ks or k > ks[-1]]
+            ks.append(later[0] if later else cand[0])
         if bad:
             continue
         if len(set(ks)) != len(ks):
@@ -720,6 +783,10 @@ def supported_metrics(cat):
     return [m for m in metric_names() if supported(cat, m)]
 
 
+# namespaces that differ only in capitalisation or surrounding whitespace are DIFFERENT namespaces
+NAMESPACES = ["a", "a", "a", "b", "A", " a", "a ", "B"]
+
+
 def gen_gap(rng):
     r = rng.random()
     if r < 0.42:
@@ -763,7 +830,7 @@ def gen_case(rng, maxlen=12, unsupported=False):
                  "ns": rng.choice("ab"), "start": None, "gap": gen_gap(rng)}
         else:
             cid, cat = rng.choice(comps)
-            a = {"t": "sub", "cid": cid, "metric": rng.choice(favs[cid]), "ns": rng.choice("aab"),
+            a = {"t": "sub", "cid": cid, "metric": rng.choice(favs[cid]), "ns": rng.choice(NAMESPACES),
                  "start": rng.choice([None, None, None, 5]), "gap": gen_gap(rng)}
             subs.append(a)
         case["actions"].append(a)
@@ -779,6 +846,19 @@ def gen_case(rng, maxlen=12, unsupported=False):
         case["comps"] = [list(c) for c in sorted(comps + nodata)]
     if same:
         case["same_ts"] = same
+    if rng.random() < 0.35:
+        # special float values in fields that are (likely) subscribed; also in the closing probe message
+        sp = []
+        for c, _ in comps:
+            if any(x[0] == c for x in same):
+                continue       # messages are told apart by (timestamp, value): keep those unique
+            for _ in range(rng.choice([1, 2, 3])):
+                sp.append([c, rng.randint(0, sent[c]), rng.choice(favs[c]), rng.choice(sorted(SPECIALS))])
+        uniq = {}
+        for x in sp:
+            uniq[(x[0], x[1], x[2])] = x
+        if uniq:
+            case["special"] = sorted(uniq.values())
     return case
 
 
@@ -846,6 +926,48 @@ def gen_open(rng, comps):
     for c, _ in comps:
         if rng.random() < 0.8:
             out[str(c)] = [[rng.choice([0, 1, 1, 2, 3, 4, 6, 8]), rng.choice([0, 0, 0, 1, 2])] for _ in range(4)]
+    return out
+
+
+def special_value_cases():
+    """Every special float value in a subscribed field (and in an unsubscribed one), every category."""
+    out = []
+    kinds = sorted(SPECIALS)
+    for cid, cat in POOL[:4]:
+        ms = supported_metrics(cat)
+        m1, m2, m3 = ms[0], ms[len(ms) // 2], ms[-1]
+        S = lambda metric, ns="a", gap=0: {"t": "sub", "cid": cid, "metric": metric, "ns": ns, "start": None, "gap": gap}
+        M = lambda gap=0: {"t": "msg", "cid": cid, "gap": gap}
+        sp = []
+        for k, kind in enumerate(kinds):
+            sp.append([cid, k, m1, kind])
+            sp.append([cid, k, m2, kinds[(k + 3) % len(kinds)]])
+            sp.append([cid, k, m3, kinds[(k + 5) % len(kinds)]])      # m3 is subscribed late
+        for mode in ("direct", "actor"):
+            out.append({"mode": mode, "comps": [[cid, cat]], "special": sp, "actions":
+                        [S(m1), S(m2, ns="b")] + [M(-1 if k % 3 == 0 else k % 2) for k in range(4)] + [S(m3, gap=1)] +
+                        [M(0) for _ in range(len(kinds) - 4)] + [M(-1)]})
+    return out
+
+
+def namespace_cases():
+    """Same component and metric requested under namespaces equal up to capitalisation / whitespace: separate
+    streams, each message once on each; closing one leaves the other alone."""
+    out = []
+    variants = [["Grid", "grid"], ["grid", "GRID", "Grid"], ["pv pool", " pv pool", "PV pool "], ["a", "A", "a", "b"]]
+    for cid, cat in POOL[:4]:
+        m = supported_metrics(cat)[0]
+        S = lambda ns, gap=0, metric=m: {"t": "sub", "cid": cid, "metric": metric, "ns": ns, "start": None, "gap": gap}
+        M = lambda gap=0: {"t": "msg", "cid": cid, "gap": gap}
+        for names in variants:
+            for mode in ("direct", "actor"):
+                # back-to-back before the data; one after the other between messages; then one is closed
+                out.append({"mode": mode, "comps": [[cid, cat]], "actions": [S(n) for n in names] + [M(-1), M(0), M(1), M(-1)]})
+                acts = [S(names[0]), M(-1), M(0)]
+                for n in names[1:]:
+                    acts += [S(n, gap=1), M(0), M(-1)]
+                acts += [dict(S(names[-1]), t="close", gap=0), M(0), M(-1), dict(S(names[0]), t="close", gap=1), M(0), M(-1)]
+                out.append({"mode": mode, "comps": [[cid, cat]], "actions": acts})
     return out
 
 
@@ -940,7 +1062,7 @@ def gen_close_case(rng):
     subs = []
     while len(subs) < n:
         a = {"t": "sub", "cid": cid, "metric": rng.choice(metrics[:4] if rng.random() < 0.5 else metrics),
-             "ns": rng.choice("ab"), "start": None, "gap": rng.choice([0, 0, 1, -1])}
+             "ns": rng.choice(["a", "A", "b", "a "]), "start": None, "gap": rng.choice([0, 0, 1, -1])}
         if descr(a) not in [descr(x) for x in subs]:
             subs.append(a)
     gap = lambda: rng.choice([0, 0, 1, 2, 3, -1])
@@ -985,11 +1107,17 @@ def close_boundary_cases():
 def shrink_case(case):
     acts = case["actions"]
     for i in range(len(acts)):
-        yield {**case, "actions": acts[:i] + acts[i + 1:], "same_ts": []}
+        yield {**case, "actions": acts[:i] + acts[i + 1:], "same_ts": [], "special": []}
+        if case.get("special") and acts[i]["t"] != "msg":
+            yield {**case, "actions": acts[:i] + acts[i + 1:], "same_ts": []}
     if case.get("mode") == "actor":
         yield {**case, "mode": "direct"}
     if case.get("suspend"):
         yield {k: v for k, v in case.items() if k != "suspend"}
+    if case.get("special"):
+        sp = case["special"]
+        for i in range(len(sp)):
+            yield {**case, "special": sp[:i] + sp[i + 1:]}
     if case.get("open"):
         yield {k: v for k, v in case.items() if k != "open"}
         for c, v in case["open"].items():
@@ -1029,6 +1157,15 @@ def labels_of(case, obs):
         out.append("unknown_component")
     if case.get("same_ts"):
         out.append("repeated_timestamp")
+    delivered = {v for got in obs["streams"].values() for _, v in got}
+    inv_tok = {v: k for k, v in TOKENS.items()}
+    out += sorted({f"delivered_{inv_tok[v]}" for v in delivered if v in inv_tok})
+    nss = {}
+    for a in case["actions"]:
+        if a["t"] == "sub":
+            nss.setdefault((a["cid"], a["metric"], a["ns"].strip().casefold()), set()).add(a["ns"])
+    if any(len(v) > 1 for v in nss.values()):
+        out.append("namespaces_differ_only_in_case_or_space")
     catd = dict((c, k) for c, k in case["comps"])
     if any(a["t"] == "sub" and a["cid"] in catd and not supported(catd[a["cid"]], a["metric"]) for a in case["actions"]):
         out.append("invalid_metric_request")
@@ -1123,6 +1260,8 @@ class DSStream(Stream):
         yield from fault_boundary_cases()
         yield from close_boundary_cases()
         yield from open_boundary_cases()
+        yield from special_value_cases()
+        yield from namespace_cases()
         quick = tier == "quick"
         for _ in range(self.n_fault_quick if quick else self.n_fault_thorough):
             yield gen_fault_case(rng)
@@ -1151,7 +1290,7 @@ class DSStream(Stream):
     def key(self, case, obs):
         if sum(len(v) for v in obs["streams"].values()) == 0:
             return None
-        return json.dumps([case["comps"], case["actions"], case.get("mode"), case.get("same_ts"), case.get("faults"), case.get("open")], sort_keys=True)
+        return json.dumps([case["comps"], case["actions"], case.get("mode"), case.get("same_ts"), case.get("faults"), case.get("open"), case.get("special")], sort_keys=True)
 
     def labels(self, case, obs):
         return labels_of(case, obs)
